@@ -114,7 +114,7 @@ def ProvJ.toModel (resLabel : String) (p : ProvJ) : Karp.Drift.Prov :=
     implementation's observation (`concretize`); the other steps come with the provider description the spec reads -/
 inductive RawStep
   | plain (st : Karp.Drift.Step) (prov : Option ProvJ)
-  | create (claim : String) (providerLabels : List (String × String)) (launched : Bool)
+  | create (claim : String) (providerLabels : List (String × String)) (launched : Bool) (via : Karp.Drift.Via)
 
 def parseStep (resLabel : String) (j : Json) : Except String RawStep := do
   let k ← strF j "k"
@@ -131,7 +131,8 @@ def parseStep (resLabel : String) (j : Json) : Except String RawStep := do
     pure (.plain (.setProv (p.toModel resLabel)) (some p))
   | "advance" => pure (.plain (.advance ((← intF j "min") * 60000000000)) none)
   | "reconcile" => pure (.plain (.reconcile claim) none)
-  | "create" => pure (.create claim (← listOf parseKV (← fld j "labels")) (← boolD j "launched" false))
+  | "create" => pure (.create claim (← listOf parseKV (← fld j "labels")) (← boolD j "launched" false)
+      (Karp.Drift.Via.ofString ((← strO j "via").getD "")))
   | _ => throw s!"bad step {k}"
 
 def sortKV (l : List (String × String)) : List (String × String) := (l.toArray.qsort (fun a b => a.1 < b.1)).toList
@@ -187,7 +188,9 @@ def concretize (wellKnown : List String) : Karp.Drift.St → List RawStep → Li
     let (st, pv, bad) : Karp.Drift.Step × Option ProvJ × Option String :=
       match r with
       | .plain st pv => (st, pv, none)
-      | .create n pl l =>
+      | .create n pl l via =>
+        -- a static-capacity controller does nothing for a NodePool it does not manage
+        if via.managedOnly && !s.poolManaged then (Karp.Drift.createStep s via n [] pl l, none, none) else
         let t := s.pool.pool.template
         let obs := match posts.head? with
           | some p => (match p.claims.find? (·.name == n) with | some c => c.labels | none => [])
@@ -198,7 +201,7 @@ def concretize (wellKnown : List String) : Karp.Drift.St → List RawStep → Li
            | .ok R =>
              let resolved := resolvedOf wellKnown R obs
              let fresh := s.pool.present && !s.claims.any (·.name == n)
-             (.create n resolved pl l, none,
+             (Karp.Drift.createStep s via n resolved pl l, none,
               if fresh && !posts.isEmpty && !Karp.Drift.resolvedAllowed wellKnown R resolved then
                 some s!"create {n}: the custom labels {resolved} are not an outcome Requirement.Any() may produce" else none)
            | .error _ => (.create n [] pl l, none, none))
